@@ -41,6 +41,33 @@ type key struct {
 	priv crypto.PrivateKey
 	pub  crypto.PublicKey
 	addr sdk.Address
+	subs []key // non-empty: an N-of-N multisignature key over these keys
+}
+
+// sign produces the signature of this key over msg; wrong >= 0 lets sub-key `wrong` be replaced by a stranger
+func (k key) sign(msg []byte, wrong int) []byte {
+	if len(k.subs) == 0 {
+		sig, _ := k.priv.Sign(msg)
+		return sig
+	}
+	ms := crypto.MultiSignature{}
+	for i, s := range k.subs {
+		signer := s
+		if i == wrong {
+			signer = k.subs[(i+1)%len(k.subs)]
+		}
+		ms.Sigs = append(ms.Sigs, signer.sign(msg, -1))
+	}
+	return ms.Marshal()
+}
+
+func mkMulti(subs []key) key {
+	var pks []crypto.PublicKey
+	for _, s := range subs {
+		pks = append(pks, s.pub)
+	}
+	pub := crypto.PublicKeyMultiSignature{PublicKeys: pks}
+	return key{pub: pub, addr: sdk.Address(pub.Address()), subs: subs}
 }
 
 func hx(b []byte) string {
@@ -296,20 +323,33 @@ type txSpec struct {
 	memo     string
 	mutate   int // 0 none, 1 fee, 2 memo, 3 entropy (after signing)
 	sigEmpty bool
+	feeOther int64 // additional fee coins in the second denomination "aaa" (the model ignores them)
+	wrongSub int   // multisig: index of the sub-signature made by another key (-1: none)
+}
+
+func feeCoins(upokt, other int64) sdk.Coins {
+	cs := sdk.Coins{}
+	if other > 0 {
+		cs = append(cs, sdk.NewCoin("aaa", sdk.NewInt(other)))
+	}
+	if upokt > 0 {
+		cs = append(cs, sdk.NewCoin(sdk.DefaultStakeDenom, sdk.NewInt(upokt)))
+	}
+	return cs
 }
 
 func (h *hist) buildTx(t txSpec) ([]byte, string) {
 	entropy := int64(h.r.U64() >> 1)
-	fee := coins(t.fee)
+	fee := feeCoins(t.fee, t.feeOther)
 	signBytes, err := auth.StdSignBytes(simapp.ChainID, entropy, fee, t.msg, t.memo)
 	if err != nil {
 		panic(err)
 	}
-	sig, _ := t.signer.priv.Sign(signBytes)
+	sig := t.signer.sign(signBytes, t.wrongSub)
 	memo := t.memo
 	switch t.mutate {
 	case 1:
-		fee = coins(t.fee + 1)
+		fee = feeCoins(t.fee+1, t.feeOther)
 		t.fee = t.fee + 1
 	case 2:
 		memo = memo + "x"
@@ -338,7 +378,22 @@ func (h *hist) buildTx(t txSpec) ([]byte, string) {
 	if t.sigEmpty {
 		se = 1
 	}
-	op := fmt.Sprintf("TX %s fee=%d memo=%d att=%s multi=0 by=%s mut=%d sigempty=%d dup=0", t.spec, t.fee, len(memo), att, hx(t.signer.addr), mut, se)
+	multi := 0
+	if t.attached != nil && len(t.attached.subs) > 0 {
+		multi = 1 + len(t.attached.subs) // what recSignDepth counts for a flat multisig key
+	}
+	if t.attached == nil { // the key is looked up from the signer's account
+		for _, k := range h.keys {
+			if k.addr.Equals(t.msg.GetSigner()) && len(k.subs) > 0 {
+				multi = 1 + len(k.subs)
+			}
+		}
+	}
+	by := hx(t.signer.addr)
+	if len(t.signer.subs) > 0 && t.wrongSub >= 0 {
+		by = "00" // one position was signed by another key: nobody's valid signature
+	}
+	op := fmt.Sprintf("TX %s fee=%d memo=%d att=%s multi=%d by=%s mut=%d sigempty=%d dup=0", t.spec, t.fee, len(memo), att, multi, by, mut, se)
 	return bz, op
 }
 
@@ -367,10 +422,14 @@ func (h *hist) validator(a sdk.Address) (valView, bool) {
 func (h *hist) genTx(pp posTypes.Params, govOwner map[string]key, daoOwner key, paramPool []paramChoice) txSpec {
 	r := h.r
 	k := h.pick()
-	t := txSpec{signer: k, attached: &k, fee: 0}
+	t := txSpec{signer: k, attached: &k, fee: 0, wrongSub: -1}
 	minStake := pp.StakeMinimum
 	switch c := r.Intn(20); {
-	case c < 6: // stake
+	case c < 6: // stake (a consensus key: never a multisig key)
+		for len(k.subs) > 0 {
+			k = h.pick()
+			t.signer, t.attached = k, &k
+		}
 		bal := h.balance(k.addr)
 		var amt int64
 		switch r.Intn(7) {
@@ -404,12 +463,30 @@ func (h *hist) genTx(pp posTypes.Params, govOwner map[string]key, daoOwner key, 
 			}
 			if len(cands) > 0 {
 				k = cands[r.Intn(len(cands))]
+				// a validator that fell below a raised minimum stake is the case the handler must refuse cleanly
+				for _, c := range cands {
+					if v, _ := h.validator(c.addr); v.tokens < minStake && r.Chance(2, 3) {
+						k = c
+					}
+				}
 				t.signer, t.attached = k, &k
 			}
 		}
 		t.msg = posTypes.MsgBeginUnstake{Address: k.addr}
 		t.spec = "unstake:" + hx(k.addr)
-	case c < 12: // unjail
+	case c < 12: // unjail (mostly by a validator that is jailed)
+		if r.Chance(7, 10) {
+			var cands []key
+			for _, c := range h.keys {
+				if v, ok := h.validator(c.addr); ok && v.jailed {
+					cands = append(cands, c)
+				}
+			}
+			if len(cands) > 0 {
+				k = cands[r.Intn(len(cands))]
+				t.signer, t.attached = k, &k
+			}
+		}
 		t.msg = posTypes.MsgUnjail{ValidatorAddr: k.addr}
 		t.spec = "unjail:" + hx(k.addr)
 	case c < 16: // send
@@ -494,8 +571,48 @@ func (h *hist) genTx(pp posTypes.Params, govOwner map[string]key, daoOwner key, 
 		t.sigEmpty = true
 	case 8:
 		t.memo = strings.Repeat("m", 250+r.Intn(12))
+	case 9: // part (or all) of the fee in another denomination (only what the signer can pay: the model ignores it)
+		ctx := sdk.NewContext(h.app.Store(), abci.Header{}, false, nil)
+		have := h.app.AK.GetCoins(ctx, t.msg.GetSigner()).AmountOf("aaa").Int64()
+		if have < 2 {
+			break
+		}
+		t.feeOther = 1 + int64(r.Intn(int(have)/2))
+		if r.Bool() {
+			t.fee = 0
+		} else if r.Bool() && t.fee > 0 {
+			t.fee = 1
+		}
+	case 10: // a multisig attacker key for somebody else's message
+		for _, m := range h.keys {
+			if len(m.subs) > 0 && len(m.subs) < 7 {
+				mm := m
+				t.signer, t.attached = mm, &mm
+			}
+		}
+	case 11:
+		if len(t.signer.subs) > 0 {
+			t.wrongSub = r.Intn(len(t.signer.subs))
+		}
 	}
 	return t
+}
+
+func (h *hist) validatorFull(a sdk.Address) (posTypes.Validator, bool) {
+	bz := h.app.Store().GetKVStore(h.app.Keys[posTypes.StoreKey]).Get(posTypes.KeyForValByAllVals(a))
+	if bz == nil {
+		return posTypes.Validator{}, false
+	}
+	return posTypes.MustUnmarshalValidator(h.app.Cdc, bz), true
+}
+func (h *hist) jailedUntil(a sdk.Address) (time.Time, bool) {
+	bz := h.app.Store().GetKVStore(h.app.Keys[posTypes.StoreKey]).Get(posTypes.GetValidatorSigningInfoKey(a))
+	if bz == nil {
+		return time.Time{}, false
+	}
+	var si posTypes.ValidatorSigningInfo
+	h.app.Cdc.MustUnmarshalBinaryLengthPrefixed(bz, &si)
+	return si.JailedUntil, true
 }
 
 func (h *hist) tombstoned(a sdk.Address) bool {
@@ -547,6 +664,9 @@ func decRaw(num, den int64) sdk.Dec { return sdk.NewDec(num).Quo(sdk.NewDec(den)
 func runHistory(r *rng.R, id, maxBlocks int, wo, wi *bufio.Writer) {
 	h := &hist{r: r, id: id, wo: wo, wi: wi, tm: map[string]int64{}, pubAddr: map[string]string{}}
 	h.keys = mkKeys(8+r.Intn(4), r.U64()%5)
+	nPlain := len(h.keys)
+	h.keys = append(h.keys, mkMulti([]key{h.keys[0], h.keys[1]}), mkMulti([]key{h.keys[2], h.keys[3], h.keys[4]}),
+		mkMulti([]key{h.keys[0], h.keys[1], h.keys[2], h.keys[3], h.keys[4], h.keys[5], h.keys[6]}))
 	// ---------------- parameters
 	windows := []int64{2, 3, 4, 5, 7, 8}
 	minSigned := []sdk.Dec{decRaw(1, 2), decRaw(1, 4), decRaw(3, 4), decRaw(9, 10), decRaw(0, 1), decRaw(1, 1), decRaw(1, 3)}
@@ -573,6 +693,7 @@ func runHistory(r *rng.R, id, maxBlocks int, wo, wi *bufio.Writer) {
 	var accs authTypes.Accounts
 	var vals posTypes.Validators
 	supply := int64(0)
+	otherSupply := int64(0)
 	nv := 1 + r.Intn(5)
 	staked := int64(0)
 	type accline struct {
@@ -594,14 +715,19 @@ func runHistory(r *rng.R, id, maxBlocks int, wo, wi *bufio.Writer) {
 		if r.Chance(1, 8) && i >= nv {
 			continue // no account at all
 		}
-		accs = append(accs, &authTypes.BaseAccount{Address: k.addr, Coins: coins(bal), PubKey: k.pub})
+		accCoins := sdk.Coins{sdk.NewCoin("aaa", sdk.NewInt(100000))}
+		if bal > 0 {
+			accCoins = append(accCoins, sdk.NewCoin(sdk.DefaultStakeDenom, sdk.NewInt(bal)))
+		}
+		otherSupply += 100000
+		accs = append(accs, &authTypes.BaseAccount{Address: k.addr, Coins: accCoins, PubKey: k.pub})
 		acclines = append(acclines, accline{hx(k.addr), bal})
 		supply += bal
 		h.pubAddr[string(k.pub.RawBytes())] = string(k.addr)
 	}
-	perm := r.Intn(len(h.keys))
+	perm := r.Intn(nPlain)
 	for i := 0; i < nv; i++ {
-		k := h.keys[(perm+i*3)%len(h.keys)]
+		k := h.keys[(perm+i*3)%nPlain]
 		dup := false
 		for _, v := range vals {
 			if v.Address.Equals(k.addr) {
@@ -642,7 +768,7 @@ func runHistory(r *rng.R, id, maxBlocks int, wo, wi *bufio.Writer) {
 	daoOwner := h.keys[r.Intn(3)]
 	gp := govTypes.Params{ACL: acl, DAOOwner: daoOwner.addr, Upgrade: govTypes.NewUpgrade(0, "")}
 	gen := &simapp.Genesis{
-		Auth: authTypes.GenesisState{Params: ap, Accounts: accs, Supply: coins(supply)},
+		Auth: authTypes.GenesisState{Params: ap, Accounts: accs, Supply: feeCoins(supply, otherSupply)},
 		Pos:  posTypes.GenesisState{Params: pp, PrevStateTotalPower: sdk.ZeroInt(), Validators: vals},
 		Gov:  govTypes.GenesisState{Params: gp, DAOTokens: sdk.NewInt(daoTokens)},
 	}
@@ -682,6 +808,7 @@ func runHistory(r *rng.R, id, maxBlocks int, wo, wi *bufio.Writer) {
 	h.sets = map[int64]map[string]int64{1: copySet(h.tm), 2: copySet(h.tm)}
 	paramPool := []paramChoice{
 		{"pos/MaxValidators", posNum(1, func(h *hist) int64 { return int64(1 + h.r.Intn(6)) }, false)},
+		{"pos/StakeMinimum", posNum(2, func(h *hist) int64 { return []int64{1000000, 2000000, 1500000}[h.r.Intn(3)] }, false)},
 		{"pos/SignedBlocksWindow", posNum(4, func(h *hist) int64 { return []int64{2, 3, 5, 8}[h.r.Intn(4)] }, false)},
 		{"pos/UnstakingTime", posNum(0, func(h *hist) int64 { return int64(time.Duration(1+h.r.Intn(30)) * time.Second) }, true)},
 		{"pos/DowntimeJailDuration", posNum(6, func(h *hist) int64 { return int64(time.Duration(1+h.r.Intn(30)) * time.Second) }, true)},
@@ -710,6 +837,29 @@ func runHistory(r *rng.R, id, maxBlocks int, wo, wi *bufio.Writer) {
 			h.now = h.now.Add(time.Duration(1+r.Intn(60)) * time.Second)
 		default:
 			h.now = h.now.Add(time.Duration(1+r.Intn(6000)) * time.Millisecond).Add(time.Duration(r.Intn(1000)))
+		}
+		// aim some block times at the instants the rules are about: jailed-until and unstaking completion, +- a little
+		if r.Chance(1, 3) {
+			var instants []time.Time
+			for _, k := range h.keys {
+				if v, ok := h.validatorFull(k.addr); ok {
+					if v.Status == sdk.Unstaking {
+						instants = append(instants, v.UnstakingCompletionTime)
+					}
+					if v.Jailed {
+						if ju, ok := h.jailedUntil(k.addr); ok && ju.Year() < 3000 {
+							instants = append(instants, ju)
+						}
+					}
+				}
+			}
+			if len(instants) > 0 {
+				x := instants[r.Intn(len(instants))]
+				d := []time.Duration{0, 1, -1, 400 * time.Millisecond, -400 * time.Millisecond, -900 * time.Millisecond, time.Second}[r.Intn(7)]
+				if t := x.Add(d); t.After(h.now) {
+					h.now = t
+				}
+			}
 		}
 		// LastCommitInfo of BeginBlock(H) are the votes for block H-1, cast by the set of H-1
 		signers := h.sets[h.height-1]
